@@ -30,6 +30,13 @@ theorem scattering_eq_spec_of_signs (t : Tbl ℝ) (atoms : List (Atom × ℝ)) (
     neutronScattering t atoms ρ w = .ok (Spec.scattering t atoms ρ w) :=
   PtProofs.Neutron.scattering_eq_spec_of_signs t atoms ρ w hd hv hN him
 
+/-- the `energy=` path is the same calculation at `λ = √(ENERGY_FACTOR / E)` -/
+theorem scattering_eq_spec_energy (t : Tbl ℝ) (atoms : List (Atom × ℝ)) (ρ e : ℝ)
+    (hd : AllData t atoms) (h : Physical t atoms ρ (neutronWavelength e))
+    (him : ImNonpos t (neutronWavelength e) atoms) :
+    neutronScatteringE t atoms ρ e = .ok (Spec.scattering t atoms ρ (neutronWavelength e)) :=
+  PtProofs.Neutron.scattering_eq_spec_energy t atoms ρ e hd h him
+
 /-- the per-atom step: `scattering_by_wavelength` returns `b_c − i σ_a/(1000·2·1.798)` and the
     tabulated `σ_s`, or for an energy-dependent atom the interpolated `b_c` and `4π|b_c|²/100` -/
 theorem per_atom_eq_spec (r : NRec ℝ) (w : ℝ) : scatteringByWavelength r w = Spec.atom r w :=
@@ -105,6 +112,15 @@ theorem energy_dependent_uses_table (r : NRec ℝ) (g : Grid ℝ) (h : r.table =
       = (interpClamp g w, 4 * Real.pi * ((interpClamp g w).1 * (interpClamp g w).1
           + (interpClamp g w).2 * (interpClamp g w).2) / 100) := by
   rw [sbw_eq_spec]; unfold Spec.atom; rw [h]; simp [lit]
+
+/-- `energy_dependent_init`: rows tabulated by strictly increasing positive energy give a grid
+    strictly increasing in wavelength – the hypothesis of the four interpolation theorems – and
+    the values stay with their energies -/
+theorem table_is_wavelength_ordered (rows : List (ℝ × ℝ × ℝ))
+    (hpos : ∀ r ∈ rows, 0 < r.1) (hinc : (rows.map (·.1)).Pairwise (· < ·)) :
+    Increasing (edNodes rows) ∧
+      (edNodes rows).map (·.2) = (rows.map fun r => (r.2.1, r.2.2)).reverse :=
+  ⟨edNodes_increasing rows hpos hinc, edNodes_values rows⟩
 
 /-! ### non-vacuity: water over a two-record table satisfies every hypothesis above -/
 
